@@ -48,8 +48,8 @@ Base == <<
   << S1("select"), <<"substr(name, 1, 2)", "substring(name, 1, 2)">>, S1(","), <<"to_base64(name)", "base64(name)">>, S1(","), <<"power(size, 2)", "pow(size, 2)">>, S1("from"), S1(".") >>,
   << S1("select"), S1("name"), S1(","), <<"fsize", "hsize">>, S1(","), <<"format_size(size, '%.1')", "format_filesize(size, '%.1')">>, S1(","),
      <<"format_time(size)", "pretty_time(size)">>, S1("from"), S1(".") >>,
-  << S1("select"), <<"current_date()", "cur_date()", "curdate()", "current_date", "curdate">>, S1(","), S1("name"), S1("from"), S1(".") >>,
-  << S1("select"), S1("name"), S1(","), <<"dayofweek(modified)", "dow(modified)">>, S1(","), <<"current_uid()", "current_uid">>, S1("from"), S1(".") >>,
+  << S1("select"), <<"current_date()", "cur_date()", "curdate()", "current_date", "curdate", "curdate{}", "current_date{}">>, S1(","), S1("name"), S1("from"), S1(".") >>,
+  << S1("select"), S1("name"), S1(","), <<"dayofweek(modified)", "dow(modified)">>, S1(","), <<"current_uid()", "current_uid", "current_uid{}">>, S1("from"), S1(".") >>,
   << S1("select"), <<"stddev_pop(size)", "stddev(size)", "std(size)">>, S1(","), <<"var_pop(size)", "variance(size)">>, S1(","), <<"count(*)", "count{*}", "COUNT(*)">>, S1("from"), S1(".") >>,
   \* 24: column aliases
   << S1("select"), S1("name"), S1(","), <<"is_pipe", "is_fifo">>, S1(","), <<"is_char", "is_character">>, S1(","), <<"user_all", "user_rwx">>, S1(","),
@@ -66,7 +66,9 @@ Base == <<
   \* 31: two unquoted roots separated by comma + blank, as README writes them (`from /home/user/oldstuff, /home/user/newstuff where ..`):
   \*     split at whitespace the first root's shell word ends with the comma
   << <<"select", "">>, S1("path"), S1("from"), S1("sub,"), S1("sub/deep"), S1("where"), S1("name"), <<"=", "eq">>, S1("'*.txt'") >>,
-  << S1("select"), S1("name"), S1("from"), S1("sub"), <<"depth", "maxdepth">>, S1("1,"), S1("sub/deep"), <<"", "bfs">> >>
+  << S1("select"), S1("name"), S1("from"), S1("sub"), <<"depth", "maxdepth">>, S1("1,"), S1("sub/deep"), <<"", "bfs">> >>,
+  \* 34: the same with a multi-byte character in the root word that ends with the comma
+  << <<"select", "">>, S1("path"), S1("from"), S1("café,"), S1("sub/deep"), S1("where"), S1("name"), <<"=", "eq">>, S1("'*.txt'") >>
 >>
 
 VARIABLES q, slot, alt, casing, split, phase
@@ -99,7 +101,7 @@ Choose == /\ phase = "start"
           /\ split' \in {0, 1000} \cup
                 (IF ~PartialSplits THEN {}
                  \* (several roots: any two-way split leaves a later root inside a word with blanks - the named deviation again)
-                 ELSE IF \E k \in 1 .. Len(Base[q']) : Base[q'][k][1] \in {"sub,", "1,"} THEN {}
+                 ELSE IF \E k \in 1 .. Len(Base[q']) : Base[q'][k][1] \in {"sub,", "1,", "café,"} THEN {}
                  ELSE IF \E k \in 1 .. Len(Base[q']) : Base[q'][k][1] = "from"
                       THEN { k \in 2 .. Len(Base[q']) - 1 : Base[q'][k - 1][1] = "from" }
                       ELSE 1 .. Len(Base[q']) - 1)
@@ -136,7 +138,8 @@ W11 == [nodes |-> W2.nodes \o <<
           X(17, 0, "symlink", <<"l","n","k","d">>, <<>>, 1),
           X(18, 0, "file", <<".","g","i","t","i","g","n","o","r","e">>, Runs(0, 0), -3),
           X(19, 0, "file", <<".","h","g","i","g","n","o","r","e">>, <<[byte |-> 42, count |-> 1], [byte |-> 46, count |-> 1], [byte |-> 108, count |-> 1], [byte |-> 111, count |-> 1], [byte |-> 103, count |-> 1], [byte |-> 10, count |-> 1]>>, -3),
-          X(20, 0, "file", <<".","d","o","c","k","e","r","i","g","n","o","r","e">>, <<[byte |-> 42, count |-> 1], [byte |-> 46, count |-> 1], [byte |-> 98, count |-> 1], [byte |-> 105, count |-> 1], [byte |-> 110, count |-> 1], [byte |-> 10, count |-> 1]>>, -3) >>]
+          X(20, 0, "file", <<".","d","o","c","k","e","r","i","g","n","o","r","e">>, <<[byte |-> 42, count |-> 1], [byte |-> 46, count |-> 1], [byte |-> 98, count |-> 1], [byte |-> 105, count |-> 1], [byte |-> 110, count |-> 1], [byte |-> 10, count |-> 1]>>, -3),
+          X(21, 0, "dir", <<"c","a","f","é">>, <<>>, -3), X(22, 21, "file", <<"y",".","t","x","t">>, Runs(2, 0), -3) >>]
 EmitWorld == (phase = "start") => PrintT(<<"WORLD", ToJson([key |-> "W11", world |-> W11])>>)
 Emit == phase = "done" => PrintT(<<"REPLAY", ToJson(Scenario)>>)
 =============================================================================
